@@ -113,6 +113,11 @@ func runRaceScenario(sc raceScenario, idx int) (status string, eff *raceEff) {
 	if err := svc.RegisterInterface(&raceIface{name: "org.verif.race", calls: &eff.served}); err != nil {
 		return "setup-register", eff
 	}
+	// a second interface whose name sorts before the others: the name list is not in alphabetical order, so code
+	// that tidies it up while serving (the tables are read by handlers without the mutex) would have to write
+	if err := svc.RegisterInterface(&raceIface{name: "a.verif.race", calls: &eff.served}); err != nil {
+		return "setup-register", eff
+	}
 	addr := fmt.Sprintf("unix:@verif-race-%d-%d-%d", os.Getpid(), idx, atomic.AddInt64(&raceSeq, 1))
 	if sc.tcp {
 		addr = "tcp:127.0.0.1:0"
